@@ -20,8 +20,8 @@ def _alarm(signum, frame):
 
 def _outcome(fn):
     from metapype.eml.exceptions import MetapypeRuleError
-    signal.signal(signal.SIGALRM, _alarm)
-    signal.alarm(30)
+    signal.signal(signal.SIGVTALRM, _alarm)          # CPU time, not wall-clock (no false timeouts on a loaded machine)
+    signal.setitimer(signal.ITIMER_VIRTUAL, 30)
     try:
         fn()
         return {"kind": "ok", "exc": ""}
@@ -34,7 +34,7 @@ def _outcome(fn):
     except Exception as e:  # noqa: BLE001
         return {"kind": "other", "exc": type(e).__name__}
     finally:
-        signal.alarm(0)
+        signal.setitimer(signal.ITIMER_VIRTUAL, 0)
 
 
 def observe_tree(root, per_node=True):
